@@ -995,15 +995,18 @@ func EventGatewayShapes() []*prog.Program {
 // EventGatewayLoop: the gateway is activated again within one instance: the task behind
 // alternative A writes `again`; again = 1 leads back to the gateway, otherwise to the end.
 // start -> merge(xor) -> G -> [A: catch A -> tA -> decision(xor) -> merge | eA] [B: catch B -> tB -> eB]
-func EventGatewayLoop() *prog.Program {
-	b := prog.NewBuilder("evgw_loop")
+func EventGatewayLoop() *prog.Program { return EventGatewayLoopKinds("signal", "signal") }
+
+// EventGatewayLoopKinds: the kinds (signal | message) of the looping and of the leaving alternative.
+func EventGatewayLoopKinds(kindA, kindB string) *prog.Program {
+	b := prog.NewBuilder("evgw_loop_" + kindA + "_" + kindB)
 	s := b.AddNode("start", "")
 	m := b.AddNode("xor", "")
 	g := b.AddNode("evgw", "")
 	b.Connect(s, m, prog.Cond{})
 	b.Connect(m, g, prog.Cond{})
 	ca := b.AddNode("catch", "")
-	b.N(ca).Evs = sig("A")
+	b.N(ca).Evs = []prog.EvDef{{K: kindA, Ref: "A"}}
 	ta := b.AddNode("task", "")
 	b.N(ta).Writes = []string{"again"}
 	b.P.Dom["again"] = []int{0, 1}
@@ -1017,7 +1020,7 @@ func EventGatewayLoop() *prog.Program {
 	d := b.Connect(x, ea, prog.Cond{})
 	b.N(x).Default = d
 	cb := b.AddNode("catch", "")
-	b.N(cb).Evs = sig("B")
+	b.N(cb).Evs = []prog.EvDef{{K: kindB, Ref: "B"}}
 	tb := b.AddNode("task", "")
 	eb := b.AddNode("end", "")
 	b.Connect(g, cb, prog.Cond{})
